@@ -2,7 +2,7 @@
    logical contents, and the whole-file invariant checker [inv_check] (the "independent parser"). *)
 From Coq Require Import List NArith String Bool.
 From Coq.Strings Require Import Byte.
-From Jamm Require Import Bytes Consts CLayout Meta Codec Spec.
+From Jamm Require Import Bytes Consts CLayout Meta OldMeta Codec Spec.
 Import ListNotations.
 Local Open Scope string_scope. Local Open Scope list_scope. Local Open Scope N_scope.
 
@@ -130,8 +130,7 @@ Fixpoint bucket_dump (fuel : nat) (rd : reader) (P np : N) (root : N) : res (lis
 Definition read_header_page (rd : reader) (P : N) (slot : N) : bytes :=
   match rd (slot * P) (N.min P 256) with Some b => b | None => [] end.
 Definition open_meta (rd : reader) (P : N) : sel :=
-  select_slots P (read_slot meta_checks_page_type (read_header_page rd P 0))
-                 (read_slot meta_checks_page_type (read_header_page rd P 1)).
+  select_any meta_checks_page_type P (read_header_page rd P 0) (read_header_page rd P 1).
 
 Record opened := mkOpened { o_meta : meta; o_free : list N; o_flrun : list N }.
 Definition open_db (rd : reader) (P : N) : res opened :=
